@@ -2826,3 +2826,163 @@ func (c *Ctx) PATHLAST(rule string) []report.Obligation {
 	out = append(out, report.Obligation{Rule: rule, Key: "pipeline :: no decision keyed on Path.Last()", Status: report.Discharged, Why: fmt.Sprintf("%d decisions on the last segment found", n)})
 	return out
 }
+
+// ENVPRES (C06, C20): a resource attribute is filled from the environment only when the variable is set. Wherever
+// package loader stores the value it looked up in a types.Mapping into a map of the model, the lookup is comma-ok
+// and the store lies on its ok edge: an unset variable leaves the attribute alone (so a value resolved by an
+// earlier pass - the included project's own environment - is not replaced by an empty string).
+func (c *Ctx) ENVPRES(rule string) []report.Obligation {
+	var out []report.Obligation
+	n := 0
+	for _, fn := range c.P.Funcs {
+		if !strings.HasPrefix(c.P.FuncID(fn), "loader.") {
+			continue
+		}
+		for _, b := range fn.Blocks {
+			for _, in := range b.Instrs {
+				mu, ok := in.(*ssa.MapUpdate)
+				if !ok {
+					continue
+				}
+				v := mu.Value
+				if mi, isMI := v.(*ssa.MakeInterface); isMI {
+					v = mi.X
+				}
+				var lk *ssa.Lookup
+				switch x := v.(type) {
+				case *ssa.Lookup:
+					lk = x
+				case *ssa.Extract:
+					if l, isL := x.Tuple.(*ssa.Lookup); isL && x.Index == 0 {
+						lk = l
+					}
+				}
+				if lk == nil {
+					continue
+				}
+				nt, isN := lk.X.Type().(*types.Named)
+				if !isN || nt.Obj().Name() != "Mapping" {
+					continue
+				}
+				n++
+				good := lk.CommaOk && factHolds(b, func(cond ssa.Value, val bool) bool {
+					ex, isE := cond.(*ssa.Extract)
+					return isE && ex.Tuple == ssa.Value(lk) && ex.Index == 1 && val
+				})
+				out = append(out, verdict(good, rule, c.P.FuncID(fn)+" :: environment value stored only when the variable is set", c.P.InstrPos(mu),
+					"the store lies on the ok edge of the comma-ok lookup in the environment", "the attribute is written whether or not the variable is set: an unset variable overwrites what an earlier pass resolved (the included project's own environment) with an empty value"))
+			}
+		}
+	}
+	if n == 0 {
+		out = append(out, bad(rule, "loader :: environment values stored into the model", "", "no store of an environment lookup into a map found in package loader: the rule sees nothing"))
+	}
+	return out
+}
+
+// KVSPLIT (C17, C03): a `KEY=VALUE` entry is cut at its first `=`; the value may contain `=` itself (base64
+// padding, -Dk=v). Wherever the module splits a string on the constant "=" with the unbounded strings.Split, the
+// only part it uses is element 0: indexing another element, or testing the number of parts, truncates or drops
+// such values. strings.Cut, SplitN(s, "=", 2) and Index are the bounded forms.
+func (c *Ctx) KVSPLIT(rule string) []report.Obligation {
+	var out []report.Obligation
+	n, bounded := 0, 0
+	for _, fn := range c.P.Funcs {
+		for _, cs := range callSites(fn, func(com *ssa.CallCommon) bool {
+			sn := staticName(com)
+			return sn == "strings.Split" || sn == "strings.SplitN" || sn == "strings.Cut"
+		}) {
+			if sep, ok := prog.ConstString(cs.Common().Args[1]); !ok || sep != "=" {
+				continue
+			}
+			sn := staticName(cs.Common())
+			if sn == "strings.Cut" {
+				bounded++
+				continue
+			}
+			if sn == "strings.SplitN" {
+				if k, isC := constInt(cs.Common().Args[2]); isC && k == 2 {
+					bounded++
+					continue
+				}
+			}
+			n++
+			good, why := true, ""
+			for _, use := range *cs.(ssa.Value).Referrers() {
+				switch u := use.(type) {
+				case *ssa.IndexAddr:
+					if k, isC := constInt(u.Index); !isC || k != 0 {
+						good, why = false, "a part other than the first is used"
+					}
+				case *ssa.DebugRef:
+				default:
+					good, why = false, "the parts are counted, ranged over or passed on ("+fmt.Sprintf("%T", u)+")"
+				}
+			}
+			out = append(out, verdict(good, rule, c.P.FuncID(fn)+" :: KEY=VALUE cut at the first `=`", c.P.InstrPos(cs),
+				"only the key (element 0) of the unbounded split is used", "the entry is split on every `=` and "+why+": a value that itself contains `=` is truncated or the entry is dropped"))
+		}
+	}
+	out = append(out, report.Obligation{Rule: rule, Key: "inventory", Status: report.Discharged, Why: fmt.Sprintf("%d bounded cuts on `=` (Cut / SplitN 2), %d unbounded splits inspected", bounded, n)})
+	return out
+}
+
+// BLANKSET (C18): what the dotenv grammar calls a blank - skipped around keys, after `export`, between the
+// separator and the value - is the Latin-1 white space except the line feed: TAB VT FF CR SPACE NEL NBSP. The
+// predicate dotenv.isSpace decides by comparing its rune with constants only (a switch, a chain of ==, or
+// strings.ContainsRune / IndexRune on a constant), and the constants are exactly that set. A wider class (all of
+// unicode.IsSpace) turns `FOO<U+3000>=bar` and `export<U+2003>FOO` into accepted keys and strips value prefixes.
+func (c *Ctx) BLANKSET(rule string) []report.Obligation {
+	f := c.P.Func("dotenv.isSpace")
+	if f == nil {
+		return []report.Obligation{anchorViolation(rule, "dotenv.isSpace")}
+	}
+	want := map[int64]bool{'\t': true, '\v': true, '\f': true, '\r': true, ' ': true, 0x85: true, 0xA0: true}
+	got := map[int64]bool{}
+	problem := ""
+	var r ssa.Value
+	if len(f.Params) == 1 {
+		r = f.Params[0]
+	}
+	for _, b := range f.Blocks {
+		for _, in := range b.Instrs {
+			switch x := in.(type) {
+			case *ssa.BinOp:
+				if x.Op != token.EQL || x.X != r {
+					continue
+				}
+				if k, isC := constInt(x.Y); isC {
+					got[k] = true
+				}
+			case *ssa.Call:
+				sn := staticName(&x.Call)
+				if (sn == "strings.ContainsRune" || sn == "strings.IndexRune") && len(x.Call.Args) == 2 && x.Call.Args[1] == r {
+					if set, isC := prog.ConstString(x.Call.Args[0]); isC {
+						for _, ch := range set {
+							got[int64(ch)] = true
+						}
+						continue
+					}
+				}
+				problem = "the class is decided by a call to " + sn
+			}
+		}
+	}
+	var diffs []string
+	for k := range want {
+		if !got[k] {
+			diffs = append(diffs, fmt.Sprintf("U+%04X is missing", k))
+		}
+	}
+	for k := range got {
+		if !want[k] {
+			diffs = append(diffs, fmt.Sprintf("U+%04X is added", k))
+		}
+	}
+	sort.Strings(diffs)
+	if problem != "" {
+		diffs = append(diffs, problem)
+	}
+	return []report.Obligation{verdict(len(diffs) == 0, rule, "dotenv.isSpace :: blanks are TAB VT FF CR SPACE NEL NBSP", c.P.Pos(f.Pos()),
+		"the predicate compares its rune with exactly these seven constants", "the blank class of the env-file grammar changed: "+strings.Join(diffs, "; ")+": runes outside it become part of keys and values, runes inside it are trimmed")}
+}
